@@ -95,10 +95,8 @@ def main(argv):
 
     witness_viols = []
     for f in findings.findings_for(pid):
-        w = f.get("witness")
-        if isinstance(w, dict) and pid in w:
-            w = w[pid]
-        if w and hasattr(mod, "replay") and "sub" in w:
+        w = (f.get("witness") or {}).get(pid)
+        if w and hasattr(mod, "replay"):
             witness_viols.extend(mod.replay({"case": w}))
     result = mod.run(tier, seed)
     result["violations"] = list(result.get("violations", [])) + witness_viols
